@@ -217,6 +217,14 @@ def judge(ctx: core.Ctx, case: dict[str, Any]) -> None:
     if cfg["cls"] == "cfs":
         reqs = [("get_template", False), ("get_template", False), ("get_template_async", True), ("get_template_async", True), ("get_template", False)]
     ncls = name_class(name)
+    twin = None
+    if cfg["cls"] == "cfs":
+        # a warm cache: ordinary templates were served before the name under test arrives, and what the cached loader then answers is what
+        # the same loader without a cache answers (a name that resolves to nothing stays unresolved however similar it is to a cached one)
+        for wn in WARM_NAMES:
+            drv.call(env.get_template, wn) if len(wn) % 2 else drv.call_async(env.get_template_async, wn)
+        tl = make_loader(dict(cfg, cls="fs"))
+        twin = drv.call(Environment(loader=tl).get_template, name)
     for api, is_async in reqs:
         with _AUDIT_LOCK:
             _AUDIT["log"] = []
@@ -235,6 +243,11 @@ def judge(ctx: core.Ctx, case: dict[str, Any]) -> None:
         with _AUDIT_LOCK:
             opened = list(_AUDIT["log"])
         ctx.evaluations += 1
+        if twin is not None and (twin.ok != o.ok or (twin.ok and drv.call(twin.value.render).value != drv.call(o.value.render).value)):
+            ctx.violation(f"{cfg['cls']}:{ncls}:warm-cache-answers-differently", f"{cfgname} {api}({case['name']!r}) after {WARM_NAMES} were served gives {o.brief()!r:.120}; the same loader without a cache gives {twin.brief()!r:.120}")
+            return
+        if twin is not None:
+            ctx.count("warm_cache_requests_compared_with_uncached_twin")
         # (1) opens inside the sandbox obey the rule
         for p in opened:
             ap = os.path.normpath(p) if os.path.isabs(p) else os.path.normpath(os.path.join(os.getcwd(), p))
@@ -288,6 +301,8 @@ def judge(ctx: core.Ctx, case: dict[str, Any]) -> None:
             ctx.samples.append(case)
 
 
+WARM_NAMES = ["a.liquid", "sub/b.liquid", "a", "sub/b", "both"]
+
 COMPONENTS = [
     "", ".", "..", "a.liquid", "a", "sub", "b.liquid", "b", "deep", "c.txt", "c", "noext", "both", "é", "sp ace", ".hidden", "d", "e", "outside", "secret.liquid", "secret",
     "root1", "root2", "root1x", "z", "linkdir", "link_out.liquid", "link_out", "link_in", "link_r2", "up", "abs_out", "dangling", "loop", "templates", "more", "m", "private", "p",
@@ -310,7 +325,8 @@ def gen_name(rng) -> str:
     return name
 
 
-BASIC = ["a.liquid", "a", "sub/b.liquid", "sub/b", "sub/deep/c.txt", "noext", "both", "d", "d.liquid", "link_in.liquid", "link_out.liquid", "linkdir/secret.liquid", "link_r2.liquid",
+BASIC = ["sub/../a.liquid", "nope/../a.liquid", "./a.liquid", "sub/./b.liquid", "sub//b.liquid", "a.liquid/", "sub/../sub/b.liquid", "nope/../sub/b", "./both", "sub/deep/../../a",
+         "a.liquid", "a", "sub/b.liquid", "sub/b", "sub/deep/c.txt", "noext", "both", "d", "d.liquid", "link_in.liquid", "link_out.liquid", "linkdir/secret.liquid", "link_r2.liquid",
          "sub/up/outside/secret.liquid", "abs_out.liquid", "../outside/secret.liquid", "<T>/outside/secret.liquid", "<T>/root1/a.liquid", "<T>/pkgs/vpkg22/secret.liquid",
          "/<T>/outside/secret.liquid", "//<T>/outside/secret.liquid", "/<T>/pkgs/vpkg22/secret.liquid", "/<T>/root1/a.liquid", "/<T>/outside/secret",
          "../secret.liquid", "../secret", "m", "c.txt", "sub/../a.liquid", "", ".", "/", "x" * 300, "sub/" + "y" * 5000, "\x00", "<S>", "dangling.liquid", "loop.liquid", "é", "sp ace"]
